@@ -81,6 +81,9 @@ def rename_locals(tree):
     return tree
 
 
+DETAIL = {}
+
+
 def verdicts(repo):
     out = {}
     for p in PROPS:
@@ -88,6 +91,7 @@ def verdicts(repo):
             ck = run_property(p, repo, "quick", "explicit")
             ck.check_expected()
             out[p] = sorted({(o.rule, o.key.split("::")[0]) for o in ck.obs if o.verdict == "violation"})
+            DETAIL[p] = {(o.rule, o.key.split("::")[0]): "%s :: %s" % (o.key, o.msg) for o in ck.obs if o.verdict == "violation"}
         except AnalysisError as e:
             out[p] = "ANALYSIS-ERROR: %s" % e
         except Exception as e:  # noqa
@@ -121,6 +125,10 @@ def main():
             print("%-22s verdict changed:" % name)
             for p, d in diffs.items():
                 print("     %s: %s" % (p, d if isinstance(d, str) else [x for x in d if x not in (base[p] if isinstance(base[p], list) else [])][:4]))
+                if not isinstance(d, str) and os.environ.get("SWEEP_DETAIL"):
+                    for x in d:
+                        if x not in (base[p] if isinstance(base[p], list) else []):
+                            print("         %s" % DETAIL.get(p, {}).get(x, "")[:400])
         else:
             print("%-22s ok" % name)
     print("modules with changed verdicts: %d" % bad)
